@@ -242,6 +242,7 @@ func ResetRun() {
 	SyncHook = nil
 	WriteHook = nil
 	WriteYields = 0
+	EnvSeed, EnvReads, randState = 0, 0, 0
 	DrainPools()
 	resetRaces()
 }
